@@ -480,4 +480,125 @@ theorem functionDef_order (ρ : Expr → Bool) (cx : Ctx) (hn : cx.nsp.kind = .m
   rw [this, hlam]
   simp [tr, trL_P, trOL_P, List.append_assoc]
 
+
+/-! ### whole programs of simple statements -/
+
+theorem tr_foldl_call (ρ : Expr → Bool) : ∀ (es : List Expr) (acc : Expr), (∀ x, acc ≠ .name x) →
+    tr ρ (es.foldl (fun acc x => .call acc [x] []) acc) = tr ρ acc ++ trL ρ es
+  | [], acc, _ => by simp [trL]
+  | e :: es, acc, hacc => by
+      simp only [List.foldl]
+      rw [tr_foldl_call ρ es _ (by intro x hx; cases hx)]
+      rw [tr_call ρ acc [e] [] (by intro x hx; exact absurd hx (hacc x))]
+      simp [trL, trK, List.append_assoc]
+
+theorem tr_chainRunner (ρ : Expr → Bool) : tr ρ chainRunner = [] := by
+  unfold chainRunner
+  rw [tr_call ρ _ _ _ (by intro x hx; cases hx)]
+  simp [tr, trL, trK, trOL, Arguments.empty]
+
+/-- **Both wrappers evaluate the statement expressions in order, each once.** -/
+theorem tr_wrapExprs (ρ : Expr → Bool) (cfg : Cfg) (es : List Expr) : tr ρ (wrapExprs cfg es) = trL ρ es := by
+  match es with
+  | [] => simp [wrapExprs, Expr.ellipsis, tr, trL]
+  | [e] => simp [wrapExprs, trL]
+  | e1 :: e2 :: rest =>
+    simp only [wrapExprs]
+    split
+    · simp [listWrapper, tr]
+    · simp only [chainCallWrapper]
+      rw [tr_foldl_call ρ _ _ (by intro x hx; cases hx)]
+      rw [tr_call ρ chainRunner [e1] [] (by intro x hx; simp [chainRunner] at hx)]
+      simp [tr_chainRunner, trL, trK]
+
+/-- a statement whose subexpressions are probes -/
+inductive PStmt
+  | assign (ts : List Tgt) (v : Nat)
+  | ann (t : Tgt) (annotation : Expr) (v : Nat)
+  | augName (x : String) (op : BinOpK) (v : Nat)
+  | augAttr (o : Nat) (a : String) (op : BinOpK) (v : Nat)
+  | augSub (o i : Nat) (op : BinOpK) (v : Nat)
+  | expr (v : Nat)
+  | def_ (name : String) (po as : List String) (va : Option String) (ko : List String) (kd : List (Option Nat))
+      (kw : Option String) (ds : List Nat) (body : List Stmt) (decos : List Nat) (lineno : Nat)
+
+def PStmt.toStmt : PStmt → Stmt
+  | .assign ts v => .assign (Tgt.toExprs ts) (P v)
+  | .ann t a v => .annAssign t.toExpr a (some (P v))
+  | .augName x op v => .augAssign (.name x) op (P v)
+  | .augAttr o a op v => .augAssign (.attribute (P o) a) op (P v)
+  | .augSub o i op v => .augAssign (.subscript (P o) (P i)) op (P v)
+  | .expr v => .expr (P v)
+  | .def_ name po as va ko kd kw ds body decos lineno =>
+      .functionDef name (.mk po as va ko (kd.map (Option.map P)) kw (ds.map P)) body (decos.map P) lineno
+
+/-- Python's evaluation order for the statement (language reference 7.2, 7.2.1, 7.2.2, 8.7) -/
+def PStmt.order : PStmt → List Nat
+  | .assign ts v => v :: Tgt.orders ts
+  | .ann t _ v => v :: t.order
+  | .augName _ _ v => [v]
+  | .augAttr o _ _ v => [o, v]
+  | .augSub o i _ v => [o, i, v]
+  | .expr v => [v]
+  | .def_ _ _ _ _ _ kd _ ds _ decos _ => decos ++ ds ++ optOrder kd
+
+def PStmt.ok : PStmt → Prop
+  | .assign ts _ => ts ≠ []
+  | _ => True
+
+theorem pstmt_order (ρ : Expr → Bool) (cx : Ctx) (hn : cx.nsp.kind = .module) (p : PStmt) (hp : p.ok)
+    (st : St) (es : List Expr) (st' : St) (h : lowerStmt cx p.toStmt st = .ok (es, st')) : trL ρ es = p.order := by
+  cases p with
+  | assign ts v => exact assign_order ρ cx hn ts hp v st es st' h
+  | ann t a v => exact annAssign_order ρ cx hn t a v st es st' h
+  | augName x op v => exact augAssign_name_order ρ cx hn x op v st es st' h
+  | augAttr o a op v => exact augAssign_attr_order ρ cx hn o a op v st es st' h
+  | augSub o i op v => exact augAssign_sub_order ρ cx hn o i op v st es st' h
+  | expr v => exact expr_order ρ cx hn v st es st' h
+  | def_ name po as va ko kd kw ds body decos lineno =>
+    exact functionDef_order ρ cx hn name po as va ko kd kw ds body decos lineno st es st' h
+
+def PStmt.orders : List PStmt → List Nat
+  | [] => []
+  | p :: ps => p.order ++ PStmt.orders ps
+
+theorem goModule_order (ρ : Expr → Bool) (cx : Ctx) (hn : cx.nsp.kind = .module) :
+    ∀ (ps : List PStmt), (∀ p ∈ ps, p.ok) → ∀ (st : St) (es : List Expr) (st' : St),
+      lowerFull.goModule cx (ps.map PStmt.toStmt) st = .ok (es, st') → trL ρ es = PStmt.orders ps
+  | [], _, st, es, st', h => by simp only [List.map, lowerFull.goModule] at h; cases h; simp [trL, PStmt.orders]
+  | p :: ps, hok, st, es, st', h => by
+      simp only [List.map, lowerFull.goModule] at h
+      obtain ⟨⟨a, st1⟩, ha, h⟩ := bind_ok h
+      obtain ⟨⟨b, st2⟩, hb, h⟩ := bind_ok h
+      cases pure_ok h
+      rw [trL_append, pstmt_order ρ cx hn p (hok p (by simp)) st a st1 ha,
+        goModule_order ρ cx hn ps (fun q hq => hok q (by simp [hq])) st1 b st2 hb]
+      rfl
+
+/-- **Whole programs.**  For a module made of such statements, the one expression the conversion
+    returns evaluates every probe of the program exactly once, in Python's order - under either
+    wrapper, either if-style, for every oracle. -/
+theorem program_order (ρ : Expr → Bool) (cfg : Cfg) (root : SymScope) (ps : List PStmt) (hok : ∀ p ∈ ps, p.ok)
+    (e : Expr) (h : lowerFull cfg root (ps.map PStmt.toStmt) = .ok e) : tr ρ e = PStmt.orders ps := by
+  unfold lowerFull at h
+  obtain ⟨⟨g, sup⟩, hg, h⟩ := bind_ok h
+  simp only [] at h
+  obtain ⟨⟨b, st⟩, hb, h⟩ := bind_ok h
+  cases pure_ok h
+  have hk : g.kind = .module := by
+    unfold generateNsp at hg
+    obtain ⟨⟨kids, a, b', sup''⟩, _, hg⟩ := bind_ok hg
+    cases pure_ok hg
+    rfl
+  have hbo := goModule_order ρ { cfg := cfg, nsp := g, loops := [], fnUsed := false } hk ps hok _ b st hb
+  rw [tr_wrapExprs]
+  have himp : ∀ m : String, tr ρ (Expr.namedExpr m (.call (.name "__import__") [Expr.str m] [])) = [] := by
+    intro m
+    simp [tr, tr_name_call ρ "__import__" _ (by decide), trL, tr_str]
+  have hiw : tr ρ iterWrapperBody = [] := by
+    simp [iterWrapperBody, iterWrapperName, tr, trL, trK, trD, trO, trOL, tr_name_call ρ "type" _ (by decide),
+      tr_name_call ρ "setattr" _ (by decide), tr_name_call ρ "iter" _ (by decide), tr_name_call ρ "next" _ (by decide),
+      Arguments.simple, Expr.str, Expr.neg1, Expr.none_, Expr.false_]
+  split <;> split <;> split <;> simp [trL, himp, hiw, hbo]
+
 end OlVerif
